@@ -91,9 +91,11 @@ def part_a(ck, replay):
             if nplans < 400:
                 raise vf.NotAVerdict("only %d plans emitted" % nplans)
             if ck.thorough():
-                hargs = ["-a", "sample1=0", "-a", "sample2=0", "-a", "paths=3", "-a", "cap=os/rpm:0:400", "-a", "deadline_s=1300"]
+                hargs = ["-a", "sample1=0", "-a", "sample2=0", "-a", "paths=4", "-a", "cap=os/rpm:0:400", "-a", "deadline_s=1300"]
+                ck.cov["not_explored"].append("(a) os/rpm (each corrupt Berkeley DB costs its 1 s time bound): all depth-1 plans, 400 sampled depth-2 plans per <fixture, path>")
             else:
                 hargs = ["-a", "sample1=0", "-a", "sample2=150", "-a", "paths=2", "-a", "cap=os/rpm:120:40", "-a", "deadline_s=150"]
+                ck.cov["not_explored"].append("(a) quick tier: depth-2 plans sampled, 150 per <extractor, fixture, path> (os/rpm: 120 depth-1 and 40 depth-2 plans, each corrupt Berkeley DB costs its 1 s time bound)")
         listed = [c for c in CLASSES if c["id"] in ck.known]
         kf = os.path.join(work, "known.json")
         with open(kf, "w") as fh:
@@ -216,7 +218,7 @@ def main():
         ck.cov["not_explored"].append("part (b) containment of a failing extraction in the scan engine: not built yet")
     ck.cov["rule"] = ("(a) every plan TLC reaches in MutationPlan.tla (Truncate, DropSpan, DupSpan, SwapSpans, ReplaceTokenClass, Empty, WhitespaceOnly, Nest, "
                       "HeaderEdit, ZipEdit; depth <= 1 fine grid, depth 2 coarse grid) x every offline built-in extractor x every fixture <= 256 KiB under its "
-                      "testdata x 2 (thorough 3) production-path classes accepted by its FileRequired; quick samples the depth-2 plans (150 per "
+                      "testdata x 2 (thorough 4) production-path classes accepted by its FileRequired; quick samples the depth-2 plans (150 per "
                       "<extractor, fixture, path>, stratified by operator, from VERIF_SEED); one evaluation = one real Extract call in a child process; "
                       "distinct_nontrivial = evaluated <extractor, fixture+path, plan> triples whose mutated bytes differ from the fixture")
     ck.assumptions += ["(a) exploration, not proof: the grammar is bounded (grid spans, 3 occurrence selectors, 4 nesting depths, 64-byte header windows, zip records) and mutated files are clamped to 1 MiB",
